@@ -29,8 +29,8 @@ def run(ctx):
         ctx.cfg = cfg
         und, sites = panic_rules.panic_freedom(ctx, prog, "R1", "R2", "reader", cfg)
         ctx.floor("R1", "panic sources reachable from the reader API", len(sites), 150, semantic=False)
-        bound_rules.allocation_sizes(ctx, prog, "R3", "reader")
-        bound_rules.equal_length_classes(ctx, prog, "R4")
+        ctx.call(bound_rules.allocation_sizes, prog, "R3", "reader")
+        ctx.call(bound_rules.equal_length_classes, prog, "R4")
         inv = norm_rules.range_invariant(ctx, prog, "R5")
-        norm_rules.normalize_absint(ctx, prog, "R5", bool(inv), result_class=False)
+        ctx.call(norm_rules.normalize_absint, prog, "R5", bool(inv), result_class=False)
     ctx.cfg = None
